@@ -87,6 +87,7 @@ inductive Entry where
   | asyncCancel (b : Nat)
   | regular (b : Nat)
   | initdef (b : Nat) (uninit : Bool)
+  | fuelOut                                       -- model artefact: the recursion budget was exhausted here
   deriving DecidableEq, Repr, Inhabited
 
 structure St where
@@ -240,7 +241,7 @@ def body (c : Cfg) (rec : Call → St → St) (call : Call) (s : St) : St :=
   | .initS b full => initBody c rec b full s
 
 def exec (c : Cfg) : Nat → Call → St → St
-  | 0 => fun _ s => if s.ok then s.raise .fuel else s
+  | 0 => fun _ s => if s.ok then (s.push .fuelOut).raise .fuel else s
   | fuel + 1 => body c (exec c fuel)
 
 /-! ### phases of `run_forever` -/
